@@ -16,6 +16,8 @@ pub mod pprint;
 pub mod query;
 pub mod tast;
 pub mod typer;
+#[cfg(goml_verif)]
+pub mod verif_hooks;
 
 #[cfg(test)]
 mod tests;
